@@ -23,6 +23,15 @@ def _interp_mod():
     return interp
 
 
+def _real_modules():
+    import inspect as _i, functools as _f, itertools as _it, collections as _c, contextlib as _cl, warnings as _w, types as _t, typing as _ty, abc as _a, weakref as _wr
+    return {'inspect': _i, 'functools': _f, 'itertools': _it, 'collections': _c, 'contextlib': _cl, 'warnings': _w, 'types': _t, 'typing': _ty, 'abc': _a,
+            'weakref': _wr, 'sys': sys}
+
+
+_REAL_MODULES = _real_modules()
+
+
 class NMod:
     """a native module namespace"""
 
@@ -34,6 +43,10 @@ class NMod:
         try:
             return self.__dict__[name]
         except KeyError:
+            # the REAL module may well have this attribute: what is missing is our model of it - never a Python error
+            real = _REAL_MODULES.get(self._name)
+            if real is not None and hasattr(real, name):
+                raise EngineLimit('%s.%s is not modelled' % (self._name, name))
             raise PyExc(AttributeError, ('module %r has no attribute %r' % (self._name, name),))
 
     def __repr__(self):
@@ -977,11 +990,22 @@ def native_module(interp, name):
                 raise
             raise PyExc(RuntimeError, ("generator didn't stop after throw()",))
 
+    class CMFactory:
+        """what @contextmanager returns: a FUNCTION (binds as a method when found on a class)"""
+        _vf_function_like = True
+
+        def __init__(self, f, bound=None):
+            self.f, self.bound = f, bound
+
+        def _vf_call(self, interp_, args, kwpairs):
+            a = ([self.bound] if self.bound is not None else []) + list(args)
+            return GenCM(interp.call(self.f, a, kwpairs))
+
+        def _vf_bind(self, inst):
+            return CMFactory(self.f, inst)
+
     def contextmanager(f):
-        def make(args, kwpairs):
-            return GenCM(interp.call(f, args, kwpairs))
-        make._vf_pairs = True
-        return make
+        return CMFactory(f)
 
     if name in ('sphinx', 'sphinx.ext', 'sphinx.ext.autodoc'):
         class FunctionDocumenter:
@@ -1013,8 +1037,26 @@ def native_module(interp, name):
         return NMod('attr')
     if name == '__future__':
         return real_future
+    def unwrap(func, *, stop=None):
+        """inspect.unwrap: follows __wrapped__ until ``stop`` says so; ValueError on a cycle"""
+        f = func
+        seen = [f]
+        while True:
+            if stop is not None and interp.truth(interp.call(stop, [f], [])):
+                return f
+            try:
+                nxt = interp.getattr_(f, '__wrapped__')
+            except PyExc as e:
+                if e.typ is AttributeError:
+                    return f
+                raise
+            if any(nxt is x for x in seen) or len(seen) > 8:
+                raise PyExc(ValueError, ('wrapper loop when unwrapping',))
+            seen.append(nxt)
+            f = nxt
+
     if name == 'inspect':
-        return NMod('inspect', Parameter=NParameter, Signature=NSignature,
+        return NMod('inspect', unwrap=unwrap, Parameter=NParameter, Signature=NSignature,
                     signature=_external(interp, 'inspect.signature'),
                     getsource=_external(interp, 'inspect.getsource'),
                     cleandoc=_external(interp, 'inspect.cleandoc'))
